@@ -1,0 +1,12 @@
+//go:build verif
+
+package pipeline
+
+// Verification-only (property C07): builds a regular event that carries a stream name, as the
+// pipeline does after reading the event's stream field. Add-only; not referenced by production code.
+func VerifC07Event(sourceID SourceID, seqID uint64, offset int64, stream string) *Event {
+	e := &Event{SeqID: seqID, Offset: offset, SourceID: sourceID, SourceName: "verif"}
+	e.kind = EventKindRegular
+	e.streamName = StreamName(stream)
+	return e
+}
